@@ -175,6 +175,12 @@ fn run_newton(tier: &str, rng: &mut Rng, out: &mut Out, worst: &mut std::collect
                         }
                         let lo = ((1u128 << (cap - 1)) + d - 1) / d;
                         let hi = (1u128 << cap) / d;
+                        // over-estimates allowed by the documentation (d*x0 < 2^(cap+1)); kept to
+                        // d*x0 <= 1.25 * 2^cap, from where the rule-of-thumb iteration count converges
+                        let (olo, ohi) = (hi + 1, ((5u128 << cap) / 4) / d);
+                        if rng.chance(1, 4) && ohi >= olo {
+                            return olo + rng.u128() % (ohi - olo + 1);
+                        }
                         if rng.chance(1, 2) && hi >= lo {
                             lo + rng.u128() % (hi - lo + 1)
                         } else {
